@@ -349,6 +349,12 @@ func init() {
 									parts = append(parts, srec.ckName+"="+val)
 								}
 							}
+							// the browser sends ALL its cookies: a session cookie from an earlier completed login travels with the callback
+							for _, ck := range jar.list() {
+								if w.isSessionCookieName(ck.Name) {
+									parts = append(parts, ck.Name+"="+ck.Value)
+								}
+							}
 							cookieHdr = strings.Join(parts, "; ")
 						}
 						before := len(w.idp.snapshotCalls())
@@ -367,6 +373,7 @@ func init() {
 						}
 						obs["session"] = w.sessionCookieEffect(r)
 						obs["status"] = r.Status
+						obs["errorPage"] = r.Status >= 400
 						obs["leak"] = vpLeaks(r, recs, pkce)
 						// the verifier presented at redemption is exactly the one of the cookie's login
 						vok := true
